@@ -93,6 +93,16 @@ func (w *ConfigurationWatcher) Start(ch chan<- controller.ID) error {
 				Target: event.Configuration.ID.Target,
 				Index:  event.Configuration.Applied.Target,
 			})
+			// While a rollback is in flight the target fields name the revision that is rolled back to, not the
+			// transaction that is rolling back: that one is named by the index fields.
+			ch <- controller.NewID(configapi.TransactionID{
+				Target: event.Configuration.ID.Target,
+				Index:  event.Configuration.Committed.Index,
+			})
+			ch <- controller.NewID(configapi.TransactionID{
+				Target: event.Configuration.ID.Target,
+				Index:  event.Configuration.Applied.Index,
+			})
 		}
 	}()
 	return nil
